@@ -31,6 +31,7 @@ let dispatch kind : (z list list -> z list list) =
   match kind with
   | "lostseg" -> run_lostseg
   | "checksum" -> run_checksum
+  | "fs" -> run_fs
   | _ -> failwith ("unknown kind " ^ kind)
 
 let () =
